@@ -45,6 +45,19 @@ DotExp(p) == Exp2Of(p, 1) + Log2Floor(OddOf(p, 1))
 DotMantNum(p) == SignOf(p, 1) * OddOf(p, 1)
 DotMantDen(p) == Pow(2, Log2Floor(OddOf(p, 1)))
 
+\* sum of all entries of Y1 (C01 on huge tensors): prod_k (sum_i a_k[i]) * 2^S1 ; mean = sum / prod_k n_k
+RECURSIVE SumVec(_, _)
+SumVec(a, k) == IF k > Len(a) THEN 0 ELSE a[k] + SumVec(a, k + 1)
+RECURSIVE SOdd(_, _), SExp(_, _), SSign(_, _), SZero(_, _), NPow2(_, _)
+SZero(p, k) == IF k > Len(p) THEN FALSE ELSE (SumVec(p[k].a, 1) = 0) \/ SZero(p, k + 1)
+SOdd(p, k) == IF k > Len(p) THEN 1
+              ELSE LET rest == SOdd(p, k + 1)  cur == OddPow(OddPart(AbsI(SumVec(p[k].a, 1))), p[k].cnt)
+                   IN IF rest >= 30000 \/ cur >= 30000 THEN 40000 ELSE (IF cur * rest >= 30000 THEN 40000 ELSE cur * rest)
+SExp(p, k) == IF k > Len(p) THEN 0 ELSE p[k].cnt * (Pow2Part(AbsI(SumVec(p[k].a, 1))) + p[k].sa) + SExp(p, k + 1)
+SSign(p, k) == IF k > Len(p) THEN 1 ELSE (IF SumVec(p[k].a, 1) < 0 /\ p[k].cnt % 2 = 1 THEN -1 ELSE 1) * SSign(p, k + 1)
+\* number of elements = 2^NPow2 when every pattern has length 2 (else -1)
+NPow2(p, k) == IF k > Len(p) THEN 0 ELSE IF Len(p[k].a) # 2 \/ NPow2(p, k + 1) < 0 THEN -1 ELSE p[k].cnt + NPow2(p, k + 1)
+
 \* core_stab on one pattern core c * 2^s with accumulated power p0
 StabExp(c, s, p0) == LET m == CHOOSE x \in {AbsI(c[k]) : k \in 1..Len(c)} : \A k \in 1..Len(c) : AbsI(c[k]) <= x
                      IN p0 + Log2Floor(m) + s
@@ -67,7 +80,9 @@ ShiftLemma == InFamily => \A t \in {-7, 1, 40} :
    IN (prof[1].cnt = 1) => /\ DotExp(q) = DotExp(prof) + t
                            /\ DotMantNum(q) = DotMantNum(prof) /\ DotMantDen(q) = DotMantDen(prof)
 Emit == InFamily => PrintT(ToJson([blocks |-> prof, d |-> Dim(prof, 1), exp |-> DotExp(prof), mnum |-> DotMantNum(prof), mden |-> DotMantDen(prof),
-                       stab1 |-> StabExp(prof[1].a, prof[1].sa, 0)]))
+                       stab1 |-> StabExp(prof[1].a, prof[1].sa, 0),
+                       szero |-> SZero(prof, 1), sodd |-> IF SZero(prof, 1) THEN 0 ELSE SSign(prof, 1) * SOdd(prof, 1),
+                       sexp |-> IF SZero(prof, 1) THEN 0 ELSE SExp(prof, 1), npow2 |-> NPow2(prof, 1)]))
 
 PatA == { <<1, 1>>, <<1, -1>>, <<2, 0>>, <<1, 2>>, <<3, 1>>, <<-1, 2, 1>>, <<2, 2, 0>> }
 CntA == {1, 2, 7, 500, 3000}
